@@ -14,7 +14,10 @@ META = {
             "takes each compressed object from the container its xref entry names; the same model with the pre-repair merge (first block wins) is required to "
             "violate it. Every completion order the model reaches for n <= 4 (6 in thorough) containers is forced on the real loader via the add-only hook, for "
             "Producer-generated multi-revision files with several object streams; each file is also loaded repeatedly in rayon pools of 1,2,3,4,8,16 threads and by "
-            "a lopdf built without rayon; all digests of the projected document (objects, trailer, max_id, version) must coincide.",
+            "a lopdf built without rayon; all digests of the projected document (objects, trailer, max_id, version) must coincide. "
+            "Filtered loading (Reader::read with a caller's filter) is modelled as the variable drop of ParallelLoad and checked the same way: TLC over every filter of "
+            "the bounded universe (Deterministic, LatestWins, FilterRestricts), the real loader with six pure filters under pools, forced orders and the rayon-free build, "
+            "judged by Trace_ParallelLoad!JudgeFiltered.",
     "note": "Trusted: TLC, the transcription of the parallel phase in ParallelLoad.tla, hook H1 (src/verif_hooks.rs, 40 lines, compiled only with --cfg lopdf_verif), "
             "the FNV digest of the projection. Real thread schedules are sampled; the order in which blocks reach the merge is enumerated exhaustively for n <= 6.",
     "bins": ["c02", "c08"],
@@ -34,6 +37,12 @@ def run(tier):
     r = tlc("MC_ParallelLoad.tla", "MC_ParallelLoad_quick.cfg", workers=4 if tier == "quick" else 16, coverage=True, timeout=1800)
     vlib.require_coverage(r, ["TakeS", "Finish", "Merge"])
     chk.add_tlc(r)
+    # filtered loading: every filter over the bounded universe, every interleaving
+    r = tlc("MC_ParallelLoad.tla", "MC_ParallelLoad_filter.cfg", workers=8 if tier == "quick" else 16, timeout=1800, name="pl-filter")
+    chk.add_tlc(r)
+    r = tlc("MC_ParallelLoad.tla", "MC_ParallelLoad_filterw.cfg", workers=4, timeout=1800, allow_violation=True, name="pl-filterw")
+    if r.violation != "WitnessFilter":
+        raise vlib.ToolError("vacuous: no modelled filter removes an object the plain load has")
     r = tlc("MC_ParallelLoad.tla", "MC_ParallelLoad_asis.cfg", workers=4, timeout=1800, allow_violation=True, name="pl-asis")
     if r.violation != "Deterministic":
         raise vlib.ToolError("vacuous: the pre-repair merge (first block wins) is not refuted by the model")
@@ -119,16 +128,18 @@ def run(tier):
     chk.extra["files_with_duplicate_member_in_one_stream"] = len(dups[:20 if tier == "quick" else 150])
     if sum(1 for f in files if f["ncomp"] >= 2) < 10:
         raise vlib.ToolError("vacuous: fewer than 10 generated files with >= 2 object streams")
+    nflt = 40 if tier == "quick" else 250          # the first files (most object streams first) are also loaded through filters
     fin = os.path.join(w, "files.ndjson")
     write_ndjson(fin, files)
     outp, outs = os.path.join(w, "par.ndjson"), os.path.join(w, "seq.ndjson")
-    run_bin("c08", ["--in", fin, "--orders", of, "--reps", 2 if tier == "quick" else 6, "--max-perm-n", 4 if tier == "quick" else 6, "--out", outp])
-    run_bin("c08seq", [fin, outs], crate="harness-seq")
+    run_bin("c08", ["--in", fin, "--orders", of, "--reps", 2 if tier == "quick" else 6, "--max-perm-n", 4 if tier == "quick" else 6,
+                    "--filtered-files", nflt, "--out", outp])
+    run_bin("c08seq", [fin, outs, nflt], crate="harness-seq")
     seq = {r["file"]: r for r in read_ndjson(outs)}
     recs = read_ndjson(outp)
     fresh = {r["file"]: r for r in recs if r["kind"] == "fresh"}
     for r in recs:
-        ref = fresh[r["file"]] if r["file"] >= 100000 else seq[r["file"]]
+        ref = seq[r["file"]] if r["file"] >= 200000 or r["file"] < 100000 else fresh[r["file"]]
         r["seqhash"] = ref["hash"]
         r["seqres"] = ref["res"]
     if sum(1 for r in recs if r["kind"] == "shared") < 20:
@@ -139,20 +150,32 @@ def run(tier):
     if len(verdicts) != len(recs):
         raise vlib.ToolError("trace validator judged %d of %d loads" % (len(verdicts), len(recs)))
     forced = 0
+    nfiltered = collections.Counter()
     for v in verdicts:
         rec = recs[v["i"]]
-        f = files[rec["file"] % 100000]
-        chk.case((rec["file"], rec["kind"], rec.get("threads"), rec.get("rep"), tuple(rec.get("order", []))) if len(rec["containers"]) >= 2 else None)
+        f = files[rec["src"] if rec["kind"] == "filtered" else rec["file"] % 100000]
+        if rec["kind"] == "filtered":
+            chk.case((rec["file"], json.dumps(rec["sched"])) if rec["dropset"] else None)
+            nfiltered[v["v"]] += 1
+        else:
+            chk.case((rec["file"], rec["kind"], rec.get("threads"), rec.get("rep"), tuple(rec.get("order", []))) if len(rec["containers"]) >= 2 else None)
         if v["v"].startswith("ok"):
             chk.traces += 1
             forced += v["v"] == "ok-forced-order"
         else:
-            chk.violation("C08:" + v["v"], {"schedule": {k: rec.get(k) for k in ("kind", "threads", "rep", "order", "observed")},
+            chk.violation("C08:" + v["v"], {"schedule": {k: rec.get(k) for k in ("kind", "threads", "rep", "order", "observed", "filter", "sched", "dropset", "ids")},
                                             "hash": rec["hash"], "seqhash": rec["seqhash"], "knobs": {k: f.get(k) for k in ("xref", "nrevs", "ncomp", "redefined", "ghost", "dupmember")},
                                             "bytes": f["bytes"]})
     if forced < 50 and not chk.violations:
         raise vlib.ToolError("vacuous: only %d loads with a forced completion order" % forced)
     chk.extra["loads_with_forced_order"] = forced
+    chk.extra["filtered_loads_by_verdict"] = dict(nfiltered)
+    if nfiltered["ok-filtered-drop"] < 100 and not chk.violations:
+        raise vlib.ToolError("vacuous: only %d filtered loads in which the filter dropped something" % nfiltered["ok-filtered-drop"])
+    dropped_containers = sum(1 for r in recs if r["kind"] == "filtered" and set(r["dropset"]) & set(r["pcontainers"]))
+    chk.extra["filtered_loads_dropping_an_object_stream"] = dropped_containers
+    if dropped_containers < 20 and not chk.violations:
+        raise vlib.ToolError("vacuous: only %d filtered loads in which an object stream was dropped" % dropped_containers)
     natural = collections.Counter(tuple(r["observed"]) != tuple(r["containers"]) for r in recs if r["kind"] == "pool" and len(r["containers"]) >= 2)
     chk.extra["pool_loads_with_out_of_order_completion"] = natural[True]
     chk.sample({"file_knobs": {k: files[0][k] for k in ("xref", "nrevs", "ncomp", "redefined")},
